@@ -51,11 +51,11 @@ impl TypeParams {
     }
 
     pub fn set_type(&mut self, param: Ident, ty: TokenStream, errors: &mut Errors) {
+        // Lifetimes are fixed to the source lifetime when the type is used (see `generics` and
+        // `Parser::get_type`), not here: whether the source lifetime is implicit is only known
+        // once every `#[logos(...)]` item has been parsed, `lifetime = ...` may follow this one.
         let ty = match syn::parse2::<Type>(ty) {
-            Ok(mut ty) => {
-                self.fix_source_lifetime_implicit(&mut ty);
-                ty
-            }
+            Ok(ty) => ty,
             Err(err) => {
                 errors.err(err.to_string(), err.span());
                 return;
@@ -178,7 +178,11 @@ impl TypeParams {
 
         for (ty, replace) in self.type_params.iter() {
             match replace {
-                Some(ty) => generics.push(quote!(#ty)),
+                Some(ty) => {
+                    let mut ty = ty.clone();
+                    self.fix_source_lifetime_implicit(&mut ty);
+                    generics.push(quote!(#ty))
+                }
                 None => {
                     errors.err(
                         format!(
